@@ -39,7 +39,7 @@ def adv (ws : List Word) : Nat := (ws.map (fun w => w.spelling.length + 1)).sum
 
 /-- `t` with the range of its word written at column `off` of line 0 -/
 def placeTok (off : Nat) (t : Tok) : Tok :=
-  { t with rng := ⟨⟨0, off⟩, ⟨0, off + utf8Len t.value.toList⟩⟩ }
+  { t with rng := ⟨⟨0, off⟩, ⟨0, off + t.value.toList.length⟩⟩ }
 
 /-- width of one token's word plus the separating space -/
 def tw (t : Tok) : Nat := (wordOfTok t).spelling.length + 1
